@@ -4,12 +4,12 @@ package main
 
 import (
 	"fmt"
-	"os"
 	"go/ast"
-	"go/printer"
 	"go/constant"
+	"go/printer"
 	"go/token"
 	"go/types"
+	"os"
 	"strconv"
 	"strings"
 
@@ -29,17 +29,17 @@ type evalCtx struct {
 }
 
 type Ev struct {
-	x     *X
-	now   *State
-	cur   *State
-	old   *State
-	scope []map[string]Val
-	pkg   *types.Package
-	ctx   evalCtx
-	fn    *ssa.Function
-	depth int
+	x        *X
+	now      *State
+	cur      *State
+	old      *State
+	scope    []map[string]Val
+	pkg      *types.Package
+	ctx      evalCtx
+	fn       *ssa.Function
+	depth    int
 	sumDepth int
-	where string
+	where    string
 }
 
 func (x *X) newEv(s *State, ctx evalCtx) *Ev {
